@@ -224,8 +224,8 @@ def plan(tier, seed):
         for ident in IDENTS:
             if ident == 'tvd-unit':
                 continue
-            for rep in range(4 if tier == 'quick' else 32):     # tiny / huge length units, almost-uniform spacing, integer-typed face arrays
-                cases.append({'cls': cls, 'ident': ident, 'seed': [seed, 5, ci, i], 'geo': ['nano', 'jitter', 'mega', 'int'][rep % 4],
+            for rep in range(7 if tier == 'quick' else 35):     # tiny / huge length units, almost-uniform spacing, integer-typed face arrays
+                cases.append({'cls': cls, 'ident': ident, 'seed': [seed, 5, ci, i], 'geo': ['nano', 'jitter', 'mega', 'int', 'offset', 'negative', 'wild'][rep % 7],
                               'ufam': ['sign', 'random'][rep % 2]})
                 i += 1
             for rep in range(3 if tier == 'quick' else 24):     # coefficient / velocity components stored in integer arrays
@@ -253,7 +253,7 @@ def floors(agg, tier):
         out.append('rebuild_after_inplace_edit < 300')
     if agg['cov'].get('ufam:int', 0) < 100:
         out.append('ufam:int < 100')
-    for geo in ('nano', 'jitter', 'mega', 'int'):
+    for geo in ('nano', 'jitter', 'mega', 'int', 'offset', 'negative', 'wild'):
         if agg['cov'].get('geo:' + geo, 0) < 30:
             out.append('geo:%s < 30' % geo)
     if agg['cov'].get('basis_columns', 0) < 2000:
